@@ -1072,7 +1072,10 @@ verif_fmt()
         binary_operation(
             &gac.access_clause.query.query,
             &rhs,
-            gac.access_clause.comparator,
+            (
+                gac.access_clause.comparator.0,
+                gac.access_clause.comparator.1 != gac.negation,
+            ),
             verif_fmt(),
             gac.access_clause.custom_message.clone(),
             resolver,
